@@ -19,7 +19,7 @@ A *case* never holds a library object: it holds an **arm spec** (a plain dict, s
   loaded; that the loader reproduces the file's kinematics is C13's own statement and C13 must not use
   this model as its oracle.  ``loadArmFromURDF`` always builds at the identity base; a URDF spec with a
   non-identity ``base`` is therefore realised as ``load`` followed by ``arm.move(tm(base))`` (the only
-  public way), and the spec key ``"moved": True`` is reported on the model (``model.built_by_move``).
+  public way); the model says so in ``model.built_by_move``.
 
 Spec::
 
